@@ -35,10 +35,12 @@ namespace cs
 
         // Because joint_array cannot be returned by value, each constructor form gets its own joint type
         // constructor via tag dispatch.
-        template <class E1, class E2, class E3>
-        struct JT : fm::joint_type<JT<E1, E2, E3>>
+        // Over != 0: the joint type itself is over-aligned (a direct member with that alignment)
+        template <class E1, class E2, class E3, std::size_t Over = 0>
+        struct JT : fm::joint_type<JT<E1, E2, E3, Over>>
         {
-            using base = fm::joint_type<JT<E1, E2, E3>>;
+            using base = fm::joint_type<JT<E1, E2, E3, Over>>;
+            alignas(Over ? Over : alignof(int)) unsigned char over_[Over ? Over : 1] = {};
             struct size_tag
             {
             };
@@ -356,11 +358,11 @@ namespace cs
             return true;
         }
 
-        template <class E1, class E2, class E3>
+        template <class E1, class E2, class E3, std::size_t Over = 0>
         void make_jt(Ctx& c, int type, int form, std::size_t n1, std::size_t n2, std::size_t n3, long extra,
                      long k, int base, int leaf)
         {
-            using T = JT<E1, E2, E3>;
+            using T = JT<E1, E2, E3, Over>;
             Args x{{n1, n2, n3}, form, base};
             if (form == F_ILIST)
             {
@@ -535,7 +537,7 @@ namespace cs
                         make_jt<EC, EA, ED>(c, 1, form, n1, n2, n3, extra, k, base, leaf);
                         break;
                     default:
-                        make_jt<ED, EC, EB>(c, 2, form, n1, n2, n3, extra, k, base, leaf);
+                        make_jt<ED, EC, EB, 32>(c, 2, form, n1, n2, n3, extra, k, base, leaf); // over-aligned type
                     }
                 }
                 else if (o.kind == "clone" && !c.hs.empty())
